@@ -211,7 +211,7 @@ Definition structural_nums (st : fstyle) : list N :=
 
 Definition C02_full : Prop :=
   forall (st : fstyle) (a : adoc) (file : bytes),
-    adoc_wf a -> Known_raw_eol st a = false -> Known_deep_parens a = false ->
+    adoc_wf a -> Known_raw_eol st a = false -> Known_deep_parens a = false -> Known_asciihex st = false ->
     ref_write st a = Some file ->
     exists d t,
       load file = LOk d t /\
